@@ -16,6 +16,28 @@ CLAIMED = {
          "TLA+ spec (PgConn) + TLC model checking + TLC trace validation of executions of the real server driven by "
          "TLC-generated and random behaviours", "4 C05"),
 }
+CONN_NOTE = ("Trusted: TLC, the harness (in-memory transport whose event log is ordered under one mutex, strict "
+             "PostgreSQL v3 decoder, scripted callbacks, per-property projection, own value codecs). Bounds: the constants "
+             "of the MC_* config; concrete values are sampled with VERIF_SEED.")
+CONN_TECH = ("TLA+ spec (PgConn) + TLC model checking + TLC trace validation of executions of the real server driven by "
+             "TLC-generated (transition cover) and seeded random behaviours")
+CLAIMED.update({
+ "C06": ("TLC checks on the bounded extended-protocol model (names {'',a} x portals {'',p}, failing/succeeding parsers and "
+         "handlers, interleaved simple/oversized/unknown messages) that ReadyForQuery is emitted only for Sync, that a "
+         "failure emits exactly one ErrorResponse and nothing until Sync, and that no callback runs while discarding; the "
+         "transition cover of that model and random longer pipelined histories are executed on the real server and every "
+         "recording is validated by TLC against the same actions (reply kinds per message, idle only when nothing is owed).",
+         CONN_NOTE, CONN_TECH, "4 C06"),
+ "C07": ("TLC explores every history of Parse/Bind/Describe/Execute/Close over two statement and two portal names with a "
+         "fresh definition id per Parse; behaviours are replayed on the real server where the statement callback reports "
+         "which definition ran with which parameters; TLC validates each recording against the spec's name maps.",
+         CONN_NOTE + " Cross-connection isolation of names is judged by C15's multi-connection runs.", CONN_TECH, "4 C07"),
+ "C08": ("TLC enumerates every admissible Bind (parameter count/classes/format lists, result format lists) of the bounded "
+         "model; conversations run on the real server with real typed values; TLC validates parameter count, order, byte "
+         "digests, NULL-ness, format tags, Scan results, ParameterDescription, RowDescription formats and the encoding "
+         "found in each DataRow field.",
+         CONN_NOTE + " Scan results and field encodings are judged through the harness's own codecs.", CONN_TECH, "4 C08"),
+})
 NOT_YET = "machinery for this property is not built yet in this revision (planned, see DESIGN.md section 4)"
 
 def main():
